@@ -38,3 +38,4 @@ func vMonitorStop() []string
 func vSyncEvents() int
 func vNote(s string)
 func vFail(label string)
+func vDebug(args ...interface{})
